@@ -2,7 +2,7 @@ SPECIFICATION Spec
 CONSTANTS Sites = 12
 Variants = 3
 MaxMuts = 1
-INVARIANTS TypeOk CapImpliesRed Emit EmitCapRed
+INVARIANTS TypeOk CapImpliesRed ConversionTotal Emit EmitCapRed EmitShapes
 PROPERTY Terminates
 VIEW view
 CHECK_DEADLOCK FALSE
